@@ -139,7 +139,7 @@ func RaceWorker(c *evid.Ctx) {
 				vrt.Filter = nil
 				for _, r := range got {
 					if !r.Lib() {
-						ignored[r.Sites[0]+" ~ "+r.Sites[1]]++
+						ignored[shortSym(r.Sites[0])+" ~ "+shortSym(r.Sites[1])]++
 						continue
 					}
 					k := raceKey18(r)
@@ -173,8 +173,15 @@ func RaceWorker(c *evid.Ctx) {
 		c.Violation(k, fmt.Sprintf("scenario %s — data race between a getter and the reload: %s (%s) and %s (%s) are not ordered by any synchronisation in schedule %v; on a plain Go map this is the fatal 'concurrent map read and map write', and a getter can see the file half applied", f.scen, meth(f.rep.Sites[0]), f.rep.Kinds[0], meth(f.rep.Sites[1]), f.rep.Kinds[1], f.choices),
 			map[string]interface{}{"engine": "E1-race", "scenario": f.scen, "choices": f.choices, "report": f.rep.Text, "seen_in_schedules": f.n})
 	}
-	for k, n := range ignored {
-		c.Info("race reports not between two library functions (harness/shim bookkeeping, ignored): %s x%d", k, n)
+	var ig []string
+	for k := range ignored {
+		if !strings.Contains(k, ".func") {
+			ig = append(ig, k)
+		}
+	}
+	sort.Strings(ig)
+	if len(ig) > 0 {
+		c.Info("race reports not between two library functions (harness/shim bookkeeping, ignored): %s", strings.Join(ig, "; "))
 	}
 }
 
@@ -205,4 +212,12 @@ func raceKey18(r racelog.Report) string {
 		x, y = y, x
 	}
 	return "C18:race:write-write:" + x + "~" + y
+}
+
+// shortSym drops the package path of a symbol.
+func shortSym(fn string) string {
+	if i := strings.LastIndex(fn, "/"); i >= 0 {
+		return fn[i+1:]
+	}
+	return fn
 }
